@@ -62,12 +62,19 @@ pub fn case_fault(scratch: &Path, meta: usize, id: &str, seed: u64, len: usize, 
     r.apply(&Op::State);
     let reference = r.real.obs().map(|o| logical(&o));
     r.apply(&Op::Close);
-    let kinds = ["other", "notfound", "denied", "interrupted", "wouldblock", "timedout"];
+    // every call index gets one kind drawn from all stable `io::ErrorKind`s and one drawn from
+    // the kinds that I/O code is most likely to treat specially (end of file, retry, "no such file")
+    let all: Vec<&str> = crate::real::IO_KINDS.iter().map(|(t, _)| *t).collect();
+    let special = ["eof", "interrupted", "wouldblock", "notfound", "invaliddata", "timedout", "writezero", "alreadyexists"];
     let faults: Vec<Op> = if replay.is_some() && !fixed_faults.is_empty() {
         fixed_faults
     } else {
         (0..n_calls + 2)
-            .map(|n| Op::FaultOpen { pol: Pol::AlwaysFlush, fail: n, forever: rng.chance(1, 2), kind: rng.pick(&kinds).to_string() })
+            .flat_map(|n| {
+                let a = Op::FaultOpen { pol: Pol::AlwaysFlush, fail: n, forever: rng.chance(1, 2), kind: rng.pick(&all).to_string() };
+                let b = Op::FaultOpen { pol: Pol::AlwaysFlush, fail: n, forever: rng.chance(1, 2), kind: rng.pick(&special).to_string() };
+                [a, b]
+            })
             .collect()
     };
     for op in faults {
@@ -480,4 +487,148 @@ pub fn case_edge(scratch: &Path, meta: usize, id: &str, seed: u64, _len: usize, 
     res.annot.clear();
     res.out.clear();
     res
+}
+
+/// C10 on WAL files LONGER than the nominal size (a file extended by whole blocks of valid
+/// frames, as left by a concatenation or a duplicated block appended to it): the reader follows
+/// the data beyond the nominal end, the writer resumes there. The GC pass of `open` then writes
+/// its position entries from an offset beyond the file size.
+pub fn case_oversize(scratch: &Path, meta: usize, id: &str, seed: u64, _len: usize, replay: Option<&Case>) -> CaseResult {
+    let mut rng = Rng::new(seed);
+    let mut r = Runner::new(scratch.join(id), meta);
+    r.check_c06 = false;
+    let mut post: Vec<Op> = Vec::new();
+    if let Some(case) = replay {
+        let mut seen_close = false;
+        for (_, op) in &case.ops {
+            if seen_close {
+                post.push(op.clone());
+            } else {
+                if matches!(op, Op::Close) {
+                    seen_close = true;
+                }
+                r.apply(op);
+            }
+        }
+    } else {
+        let long: String = {
+            let len = *rng.pick(&[300usize, 20000, 32760, 33000, 40000, 65000]);
+            (0..len).map(|_| (b'a' + rng.below(26) as u8) as char).collect()
+        };
+        r.apply(&Op::Open(Pol::AlwaysFlush));
+        r.apply(&Op::Create(long.clone()));
+        r.apply(&Op::Create("q1".into()));
+        // the record that pins file 0 while the log is live; its (first) frame is damaged below.
+        // It belongs to the long-named queue, the only queue left empty: the order of the GC's
+        // position entries (hash-map order) plays no role
+        let pin_at = r.real.cursor;
+        r.apply(&Op::Append { q: long.clone(), pos: None, payloads: vec![Payload::Gen { len: 5 + rng.below(40) as usize, seed: rng.below(1000) }] });
+        let mut guard = 0;
+        while r.real.cursor.0 == 0 && guard < 400 && !r.dead {
+            let len = if rng.chance(1, 8) { 20000 + rng.below(30000) as usize } else { rng.below(7000) as usize };
+            r.apply(&Op::Append { q: "q1".into(), pos: None, payloads: vec![Payload::Gen { len, seed: rng.below(1_000_000) }] });
+            guard += 1;
+        }
+        // everything of q1 in file 0 goes; file 0 stays because of the pinning record
+        let next = r.spec.queues.get("q1").map(|s| s.next).unwrap_or(0);
+        r.apply(&Op::Truncate { q: "q1".into(), pos: next.saturating_sub(1) });
+        // fill file 1 up to its last block, then end the tape 0..6 bytes before the end of the file
+        while r.real.cursor.0 == 1 && (r.real.cursor.1 < FILE - BLOCK || BLOCK - r.real.cursor.1 % BLOCK < 300) && guard < 800 && !r.dead {
+            let room = FILE - r.real.cursor.1;
+            let len = if room > 3 * BLOCK { rng.below(9000) as usize } else { rng.below(200) as usize };
+            r.apply(&Op::Append { q: "q1".into(), pos: None, payloads: vec![Payload::Gen { len, seed: rng.below(1_000_000) }] });
+            guard += 1;
+        }
+        if r.real.cursor.0 != 1 || r.dead {
+            return finish_pub(r, id, false);
+        }
+        let left0 = rng.below(7) as i64;
+        let len = len_for_room(r.real.cursor.1, 2, 1, left0 - 7);
+        r.apply(&Op::Append { q: "q1".into(), pos: None, payloads: vec![Payload::Gen { len, seed: rng.below(1_000_000) }] });
+        r.apply(&Op::State);
+        r.apply(&Op::Close);
+        if r.real.cursor.0 != 1 {
+            return finish_pub(r, id, false);
+        }
+        // damage 1: that record no longer passes its checksum -> nothing pins file 0
+        let f0 = std::fs::read(r.real.dir.join(wal_name(pin_at.0))).unwrap_or_default();
+        let at = pin_at.1 as usize + 7 + 3;
+        if at < f0.len() {
+            post.push(Op::Poke { file: pin_at.0, off: at as u64, data: vec![f0[at] ^ 0x40] });
+        }
+        // damage 2: file 1 grows by 1-2 blocks of valid frames: no-op truncations and one record,
+        // leaving `left` bytes in the last block
+        let next = r.spec.queues.get("q1").map(|s| s.next).unwrap_or(0);
+        let extra = 1 + rng.below(2);
+        let left = *rng.pick(&[0u64, 1, 3, 4, 6, 6, 7, 8, 100]);
+        let trunc_entry = |q: &str| -> Vec<u8> {
+            let mut e = vec![1u8];
+            e.extend_from_slice(&0u64.to_le_bytes());
+            e.extend_from_slice(&(q.len() as u16).to_le_bytes());
+            e.extend_from_slice(q.as_bytes());
+            e
+        };
+        let mut entries: Vec<Vec<u8>> = (0..(200 + rng.below(400))).map(|_| trunc_entry("q1")).collect();
+        let used: u64 = entries.iter().map(|e| 7 + e.len() as u64).sum();
+        // one single-frame record per remaining block; the last one sized to leave `left` bytes
+        let mut pos = next;
+        let mut cur = used;
+        for b in 0..extra {
+            let room = BLOCK * (b + 1) - cur;
+            let keep = if b + 1 == extra { left } else { 0 };
+            let plen = room - keep - 7 - 13 - 12;
+            let mut e = vec![4u8];
+            e.extend_from_slice(&pos.to_le_bytes());
+            e.extend_from_slice(&2u16.to_le_bytes());
+            e.extend_from_slice(b"q1");
+            e.extend_from_slice(&pos.to_le_bytes());
+            e.extend_from_slice(&(plen as u32).to_le_bytes());
+            e.extend((0..plen).map(|i| (i as u8).wrapping_mul(31).wrapping_add(pos as u8)));
+            entries.push(e);
+            pos += 1;
+            cur = BLOCK * (b + 1) - keep;
+        }
+        let (bytes, _) = mrecordlog::verif_codec::write_entries(&entries);
+        post.push(Op::SetLenFile { file: 1, len: FILE + extra * BLOCK });
+        post.push(Op::Poke { file: 1, off: FILE, data: bytes });
+        post.push(Op::Dir);
+        post.push(Op::Reopen(Pol::AlwaysFlush));
+        post.push(Op::State);
+        // the recovered log is used: a record bigger than a block, a small one, a restart
+        post.push(Op::Append { q: "q1".into(), pos: None, payloads: vec![Payload::Gen { len: 40000, seed: 7 }] });
+        post.push(Op::Append { q: "q1".into(), pos: None, payloads: vec![Payload::Gen { len: 10, seed: 8 }] });
+        post.push(Op::State);
+        post.push(Op::Reopen(Pol::AlwaysFlush));
+        post.push(Op::State);
+        r.stats.inc(&format!("oversize.left.{}", left));
+    }
+    let mut opened = false;
+    for op in &post {
+        let ctx = format!("WAL file extended beyond its nominal size by whole blocks of valid frames; `{}`", { let l = op.line(); l[..l.len().min(60)].to_string() });
+        if r.real.log.is_none() && !matches!(op, Op::Open(_) | Op::Reopen(_) | Op::Poke { .. } | Op::SetLenFile { .. } | Op::Dir | Op::Close) {
+            continue;
+        }
+        let ex = r.real.exec(op);
+        r.record(op, &ex);
+        match (&op, &ex.outcome) {
+            (Op::Open(_) | Op::Reopen(_), Outcome::OpenPanic(msg)) => {
+                r.violate("C10", format!("{}: open panicked: {}", ctx, msg));
+                r.real.log = None;
+            }
+            (Op::Open(_) | Op::Reopen(_), Outcome::Timeout) => {
+                r.violate("C10", format!("{}: open did not return", ctx));
+                break;
+            }
+            (Op::Open(_) | Op::Reopen(_), Outcome::OpenOk(_)) => {
+                opened = true;
+                r.stats.inc("oversize.opened");
+            }
+            (_, Outcome::Panic(msg)) => {
+                r.violate("C10", format!("{}: a call on the log returned by open panicked: {}", ctx, msg));
+                r.real.log = None;
+            }
+            _ => {}
+        }
+    }
+    finish_pub(r, id, opened)
 }
